@@ -177,9 +177,11 @@ func (f *FibStrategyTree) InsertNextHopEnc(name enc.Name, nexthop uint64, cost u
 	if entry.name == nil {
 		entry.name = name
 	}
-	for _, existingNexthop := range entry.nexthops {
+	for i, existingNexthop := range entry.nexthops {
 		if existingNexthop.Nexthop == nexthop {
-			existingNexthop.Cost = cost
+			// Published nexthop entries are immutable: forwarding threads
+			// read them outside the lock, so replace instead of updating
+			entry.nexthops[i] = &FibNextHopEntry{Nexthop: nexthop, Cost: cost}
 			return
 		}
 	}
